@@ -6,7 +6,7 @@ from core import hx
 from runner import Case
 
 THEOREMS = ["C14.prune_order_attrs", "C14.prune_nodes", "C14.prune_order", "C14.pruneKeep_prefix_closed", "C14.addrs_valid", "C14.subtree_eq",
-            "C14.subtree_self", "C14.missing_path_rej", "C14.missing_subtree_rej", "C14.prune_no_args_rej"]
+            "C14.subtree_self", "C14.locate_designates", "C14.find_path_spec", "C14.missing_path_rej", "C14.missing_subtree_rej", "C14.prune_no_args_rej"]
 RULE = ("trees: all ordered shapes up to N nodes and random shapes (<=30 nodes, depth<=10, fan-out<=8) labelled from "
         "suffix-related alphabets (a, b, ab, ba, bc, ...), sibling names distinct; 1-3 non-nested target nodes, each "
         "written as full path (with/without leading separator, optional trailing separator), partial path or bare "
@@ -529,7 +529,7 @@ LEVEL_TEXT = ("machine-checked (Lean 4), for all trees, all located pairwise non
               "returns the addressed node with its descendants to the relative depth as a new root (subtree_eq, subtree_self); a path "
               "matching no node raises NotFoundError / ValueError, no path and no depth raises ValueError (missing_path_rej, "
               "missing_subtree_rej, prune_no_args_rej). Which node a textual path designates is find_path's string-suffix semantics "
-              "(modelled, a hypothesis `locate = ok ps` of the theorems); freshness of the copy is C07")
+              "(locate_designates, find_path_spec: the unique node whose path_name ends with the query); freshness of the copy is C07")
 LEVEL_NOTE = ("the model is tied to the code by differential testing on generated calls (Node and BinaryNode trees, 1-3 paths in full / "
               "partial / name form, separators / . \\ | ::, missing paths); multi-character separators and the `sep` replacement are "
               "covered by the tie only")
